@@ -111,7 +111,7 @@ def functions(body, path):
     """all `fn` items directly inside a trait/impl body: (name, params:[(name,type)], has_self, ret, body_or_None)"""
     res, i, n = [], 0, len(body)
     while True:
-        m = re.compile(r"\bfn\s+(\w+)\s*").search(body, i)
+        m = re.compile(r"\bfn\s+((?:r#)?\w+)\s*").search(body, i)
         if not m: break
         name, j = m.group(1), m.end()
         if j < n and body[j] == "<":
@@ -373,6 +373,7 @@ def inventory_and_impls():
 # ---------------------------------------------------------------- Lean output
 
 def chars(s):
+    s = s[2:] if s.startswith("r#") else s
     def one(c):
         if c == "'": return "'\\''"
         if c == "\\": return "'\\\\'"
